@@ -8,7 +8,7 @@ from vlib.plugin_harness import Harness
 from octoprint_excluderegion.StreamProcessor import StreamProcessor
 
 ID = "C09"
-BUDGET = {"quick": 1500, "thorough": 15000}
+BUDGET = {"quick": 1200, "thorough": 15000}
 RULE = ("Hypothesis draws 0-3 regions (incl. degenerate), an extended-code configuration and, after G28, 4-30 commands from a "
         "wide grammar: every handled code (G0-G3, G10, G11, G20, G21, G28, G90, G91, G92, M206), configured deferred codes, unknown "
         "codes, sub-codes, T codes, lower case; 0-7 parameter words with any letter, missing / repeated / valueless words, signs, "
@@ -122,6 +122,14 @@ def cases(draw):
             if n % 37 == 5:
                 prog.append(["g", draw(st.sampled_from(["G10", "G11", "G28 X", "M400", "G92 E0", "G90"]))])
         prog += head
+    elif regions and draw(st.integers(0, 40)) == 0:
+        # a very long stay inside a region: over a thousand suppressed commands handled at full speed
+        rnd3 = gen.Renderer({}, regions, gen.profile(), 0.508, False, False)
+        tx, ty = rnd3.target("in", draw(st.integers(0, 3)), draw(st.integers(0, 100)), draw(st.integers(0, 100)))
+        prog += [["g", "G90"], ["g", "G21"], ["g", "G1 X%s Y%s" % (gen.fmt(tx), gen.fmt(ty))]]
+        for n in range(draw(st.sampled_from([1005, 2010]))):
+            prog.append(["g", "G1 X%s Y%s" % (gen.fmt(tx + 0.0001 * (n % 50), 6), gen.fmt(ty + 0.0001 * (n // 50), 6))])
+        prog.append(["g", "G1 X1 Y1"])
     wrap = draw(st.lists(st.sampled_from(["", "", " ;c", "N", "\r\n", "\n"]), min_size=len(prog), max_size=len(prog)))
     return {"config": cfg, "regions": regions, "prog": prog, "wrap": wrap}
 
